@@ -487,7 +487,7 @@ func (r *propReport) writeEvidence(e *Engine, wall float64) {
 			"solver_time_s":            float64(r.solverMs) / 1000,
 			"load_time_s":              r.loadS,
 			"explanation":              expl,
-			"samples":                  r.samples,
+			"samples":                  nonNilSamples(r.samples),
 			"per_obligation":           r.obls,
 			"replays":                  r.replays,
 			"bounded_stand_ins":        r.bounded,
@@ -500,7 +500,12 @@ func (r *propReport) writeEvidence(e *Engine, wall float64) {
 		var rules []string
 		var samples []any
 		allPass := true
+		knownOpen := 0
 		for _, b := range r.bounded {
+			if !b.Pass && r.findKnown("bounded:"+b.Name) != nil {
+				knownOpen++ // a recorded finding: reported as KNOWN-FINDING, not part of the counts
+				continue
+			}
 			cases += b.Cases
 			nontriv += b.Nontrivial
 			rules = append(rules, b.Name+": every case within the bound is enumerated and run on the real function ("+b.Bound+"); a case is non-trivial when the test says so (see its BOUNDED-NONTRIVIAL rule)")
@@ -509,7 +514,18 @@ func (r *propReport) writeEvidence(e *Engine, wall float64) {
 			}
 			allPass = allPass && b.Pass
 		}
-		if allPass && cases > 0 && nontriv >= 2 && len(samples) > 0 {
+		if allPass && knownOpen > 0 && cases > 0 && len(samples) > 0 {
+			cov := ev["coverage"].(map[string]any)
+			cov["evaluations"] = cases
+			cov["distinct_nontrivial"] = nontriv
+			cov["rule"] = strings.Join(rules, "; ")
+			cov["samples"] = samples
+			cov["explanation"] = fmt.Sprintf("bounded stand-ins only (exhaustive within the stated bounds, NOT a proof); %d recorded known finding(s) stay open, so the level is 'other'", knownOpen)
+			level = "other"
+			ev["level"] = "other"
+			expl = cov["explanation"].(string)
+		}
+		if allPass && knownOpen == 0 && cases > 0 && nontriv >= 2 && len(samples) > 0 {
 			ev["level"] = "exploration"
 			cov := ev["coverage"].(map[string]any)
 			cov["evaluations"] = cases
@@ -537,4 +553,11 @@ func writeEvidenceLoadFailure(verif, prop, tier string, err error, wall float64)
 	os.MkdirAll(filepath.Join(verif, "evidence"), 0o755)
 	data, _ := json.MarshalIndent(ev, "", " ")
 	os.WriteFile(filepath.Join(verif, "evidence", prop+".json"), data, 0o644)
+}
+
+func nonNilSamples[T any](s []T) []T {
+	if s == nil {
+		return []T{}
+	}
+	return s
 }
